@@ -1059,13 +1059,18 @@ impl MapRun {
         match op {
             Op::Reserve(_) | Op::Extend(..) => Ok(()),
             Op::Insert(_) | Op::TryInsert(_) => {
+                // an insert that walks past 8 nodes of a list bin in a table shorter than 64 grows
+                // the table instead of treeifying the bin, whether it appends or replaces
+                let overfull = bin_before >= 8 && n < 64;
+                if overfull {
+                    return Ok(());
+                }
                 if was_present == Some(true) {
-                    fail!("C14", self, "{:?} of a present key grew the table from {} to {}", op, n, n2);
+                    fail!("C14", self, "{:?} of a present key grew the table from {} to {} (its bin held {} nodes)", op, n, n2, bin_before);
                 }
                 let count_after = before_len as isize + 1;
                 let threshold = (n - (n >> 2)) as isize;
-                let overfull = bin_before >= 8 && n < 64;
-                if count_after >= threshold || overfull {
+                if count_after >= threshold {
                     Ok(())
                 } else {
                     fail!("C14", self, "{:?} grew the table from {} to {} with {} entries (threshold {}) and a bin of {} nodes", op, n, n2, count_after, threshold, bin_before)
